@@ -5,7 +5,7 @@ implementation in /repo is the subject of other rules (C18.R2 whitespace runs, C
 signalled with NativeError subclasses named like the repository's exceptions, so the evaluated handlers match them."""
 from __future__ import annotations
 
-from .miniexec import Native, NativeError
+from .miniexec import Native, NativeError, Raised
 
 
 class InvalidValue(NativeError):
@@ -52,9 +52,16 @@ class TextParser(Native):
     def parse_string_by_length(self, name, min_length=1, max_length=None, item_class=str):
         end = len(self.data) if max_length is None else min(len(self.data), self.pos + max_length)
         chunk = self.data[self.pos:end]
-        if len(chunk) < min_length:
-            raise InvalidValue(name)
-        self.values[name] = item_class(self._text(chunk))
+        if len(self.data) - self.pos < min_length:
+            raise NotEnoughData(name)       # as ParserBase._parse_string_by_length: fewer characters left than the minimum
+        try:
+            self.values[name] = item_class(self._text(chunk))
+        except ValueError as e:             # ... which turns the converter's ValueError / UnicodeError into InvalidValue
+            raise InvalidValue(name) from e
+        except Raised as e:                 # the same, raised inside a converter that is itself evaluated
+            if 'ValueError' in (getattr(e.value, 'bases', None) or ()) or e.what.split('(')[0] in ('ValueError', 'UnicodeError', 'UnicodeDecodeError'):
+                raise InvalidValue(name) from e
+            raise
         self.pos = end
 
     def _until(self, name, separators, may_end, item_class):
